@@ -962,7 +962,12 @@ class Translator:
                 self.ctype_s(self.qname(ov['id']).rsplit('::', 1)[0])
                 call = '%s((%s%s *)self%s)' % (self.use_func(ovd['id']), const, cls, ''.join(', ' + p[1] for p in ps))
                 lines.append('    case VERIF_TAG_%s: %s%s;%s' % (cls, 'return ' if rt != 'void' else '', call, '' if rt != 'void' else ' return;'))
+            # a harness may supply an abstract implementation (a contract-level model of the overriders that are outside this unit)
+            lines.append('#ifdef VERIF_ABSTRACT_%s_%s' % (base_rec, d['name']))
+            lines.append('    default: %sVERIF_ABSTRACT_%s_%s(self%s);%s' % ('return ' if rt != 'void' else '', base_rec, d['name'], ''.join(', ' + p[1] for p in ps), '' if rt != 'void' else ' return;'))
+            lines.append('#else')
             lines.append('    default: VERIF_MODEL_ASSERT(0, "virtual dispatch: unknown dynamic type");%s' % (' return 0;' if rt != 'void' else ' return;'))
+            lines.append('#endif')
             lines.append('    }')
             self.protos[fn] = sig + ';'
             self.out_funcs[fn] = '/* virtual dispatch of %s */\n%s\n{\n%s\n}\n' % (self.qname(d['id']), sig, '\n'.join(lines))
